@@ -35,7 +35,7 @@ META = {
     "engines": ["refmodel", "storage_exec", "histgen"],
 }
 REQUIRED = ("records", "rejected_ops", "worker_state_comparisons", "prefix_replays", "snapshot_restores", "interposed_appends", "rejected_mid_batch",
-            "thread_schedules_both_paused", "cluster_gap_scenarios", "redis_prefix_scenarios", "logs_with_a_pickled_worker")
+            "thread_schedules_both_paused", "cluster_gap_scenarios", "redis_prefix_scenarios", "logs_with_a_pickled_worker", "cluster_gap_long_scenarios")
 SHARDS = {"quick": 12, "thorough": 16}
 WATCHDOG_S = {"quick": 900, "thorough": 4 * 3600}
 FLAVOURS = ["file", "file_openlock", "redis", "file_snapshot"]
@@ -601,15 +601,44 @@ def redis_cluster_gap(ctx: Ctx, rng, idx: int) -> None:
         return
     tb = threading.Thread(target=lambda: res.__setitem__("b", _safe(lambda: sb.set_trial_user_attr(t0, "b", 2))))
     tc = threading.Thread(target=lambda: res.__setitem__("c", _safe(lambda: sc.get_trial(t0).user_attrs)))
-    tb.start()
-    time_sleep(0.15 + 0.2 * rng.random())
-    tc.start()
-    time_sleep(0.25)
-    gate["release"].set()
-    for t in (ta, tb, tc):
-        t.join(60)
+    # odd scenarios: the gap is LONG on the readers' clock - their back-off sleeps are virtual (1 ms real each), and the
+    # writer stays parked until the readers have "slept" for more than 100 virtual seconds
+    long_gap = idx % 2 == 1
+    import optuna.storages.journal._redis as R
+
+    class VTime:
+        slept = 0.0
+
+        def sleep(self, x):
+            VTime.slept += x
+            time_sleep(0.001)
+
+        def __getattr__(self, name):
+            return getattr(__import__("time"), name)
+
+    real_time_mod = R.time
+    if long_gap:
+        R.time = VTime()
+    try:
+        tb.start()
+        time_sleep(0.15 + 0.2 * rng.random())
+        tc.start()
+        if long_gap:
+            for _ in range(300):
+                if VTime.slept > 100:
+                    break
+                time_sleep(0.01)
+            ctx.count("cluster_gap_long_scenarios")
+            ctx.maxi("cluster_gap_virtual_seconds_slept_by_readers", VTime.slept)
+        else:
+            time_sleep(0.25)
+        gate["release"].set()
+        for t in (ta, tb, tc):
+            t.join(60)
+    finally:
+        R.time = real_time_mod
     ctx.count("cluster_gap_scenarios")
-    case = {"flavour": "redis_cluster", "cluster_gap": True, "index": idx, "seed": ctx.seed}
+    case = {"flavour": "redis_cluster", "cluster_gap": True, "long_gap_on_the_readers_clock": long_gap, "index": idx, "seed": ctx.seed}
     ctx.case(case, True)
     if any(t.is_alive() for t in (ta, tb, tc)):
         ctx.inconclusive_because("redis cluster gap scenario hung")
